@@ -42,7 +42,8 @@ def run(F, tier, res):
         for blk in mir['blocks']:
             for st in blk['s']:
                 if st[0] == 'assign':
-                    for pl in [st[1]] + [x for x in st[2][1:] if isinstance(x, dict) and 'l' in x]:
+                    for pl in [st[1]] + [x for x in st[2][1:] if isinstance(x, dict) and 'l' in x] + \
+                            [x.get('copy') or x.get('move') for x in st[2][1:] if isinstance(x, dict) and ('copy' in x or 'move' in x)]:
                         flds |= {pr[3] for pr in pl['p'] if pr[0] == 'field' and pr[2] == SM}
         if {'minus_file', 'plus_file', 'minus_file_event', 'plus_file_event'} <= flds and not Ru.field_writes(F, p, SM, 'minus_file') \
                 and not Ru.field_writes(F, p, SM, 'plus_file'):
